@@ -11,7 +11,7 @@ F = facts.load(None)
 EXACT = ("adt_variants", "helpers", "payload_variants", "types_variants", "initinstr_variants", "domain_points", "datatype_points", "id_newtypes", "abstract_heap_variants",
          "adt_openers", "adt_branch_ops", "adt_exit_ops", "roots", "name_kinds",
          "ComponentDefinedType@encode_comp", "ComponentDefinedType@convert_component_type", "CanonicalFunction@encode_comp", "const_operators", "section_calls",
-         "dispatch_sites", "compared_methods", "inject_at_impls", "function_walks", "cleared_modes", "add_import_arms", "guards")
+         "dispatch_sites", "compared_methods", "inject_at_impls", "function_walks", "add_import_arms", "guards")
 SKIP = ("dispatches", "debug_only_overflow_checks", "panic_sites", "in_place_flippers", "inplace_remap_sites", "index_sites", "pending_containers", "predicate_variants", "updater_variants",
         "kind_filtered_enumerations", "scratch_buffers", "to_local_flippers")
 HALF = ("encode_reachable_fns", "reachable_fns", "encode_calls_scanned", "sinks", "iterator_calls_scanned", "loops", "import_loops", "config_reads")
